@@ -73,7 +73,8 @@ T = {
     "C15": ("exploration", "exhaustive namespace x argument-template scan on the real code: outcome must be raise-or-correct",
             "Every exported callable is called with every argument template up to the length bound with the differentiated array in every "
             "position; whenever NumPy's value genuinely varies with it, each mode must either raise or return a Jacobian matching the "
-            "numerical one; every declared unsupported option must raise.", "Template length and atom alphabet bounded.", "3/C15"),
+            "numerical one; every declared unsupported option must raise, and every call of a list of rarely used keyword options / spellings must either "
+            "raise or give the derivative of NumPy's result with that option.", "Template length and atom alphabet bounded; keyword-option list finite.", "3/C15"),
     "C16": ("exploration", "exhaustive enumeration of in-shape x out-shape x operator x argnum layouts vs closed-form Jacobians",
             "For all input/output shapes of rank 0..3 and two closed-form families, every differential operator and argnum/kwargs layout "
             "is compared with einsum contractions of the closed-form Jacobian/Hessian.", "dims in {1,2}; two function families.", "3/C16"),
